@@ -3,15 +3,21 @@ import FV.Proofs.Disc
   C17 — Disc-overlap area is total, symmetric, bounded and accurate.
 
   Property theorems about the model `FV/Model/Disc.lean` of `circle_circle_intersection_area` (as repaired
-  by fixes/C17_acos_clamp.diff and fixes/C17_underflow_scale.diff).
-  * Over `ℝ` (`realFns`: `x ** 2`, `√`, `arccos`, `sin`, `π`, each failing exactly where Python raises):
-    the guards are correct, the function never fails, is symmetric, bounded, and equals the standard
-    closed form of the lens area.
+  by fixes/C17_acos_clamp.diff, fixes/C17_underflow_scale.diff, fixes/C17_near_equal_radii.diff and
+  fixes/C17_far_overflow.diff).
+  * Over `ℝ` (`realFns`: `x ** 2`, `hypot = √(x² + y²)`, `arccos`, `sin`, `π`, `acos` failing exactly where Python
+    raises): the guards are correct, the function never fails, is symmetric, bounded, and equals the standard
+    closed form of the lens area (the factored numerators `(a - b)(a + b) + e²` of the repaired code are the
+    textbook `a² + e² - b²`: `num_factored`).
   * For *every* rounding / underflow / overflow behaviour (any linearly ordered carrier, arbitrary `+ - * /`,
     arbitrary library functions): `acos` is only ever applied to a value in `[-1, 1]`, every divisor is
     positive or tested against zero, so the function returns a value for all centres and positive radii, and
-    the result lies in `[0, small]`.  (NaN is outside a linear order; Python's `**` raising `OverflowError`
-    for radii above ~1e154, whose disc area is not a double, is outside the model: `sq` is total.)
+    the result lies in `[0, small]`.
+    Outside these theorems (the bound on the inputs under which "never fails" is claimed for CPython):
+    NaN is outside a linear order; the only operation of the code that can still raise on finite positive input is
+    `min(r1, r2)**2` (`sq` is total in the model), Python's `**` raising `OverflowError` when the SMALLER radius
+    exceeds ~1.34e154 — the area of such a disc is not a double (already above 7.5e153).  The centre
+    coordinates are unrestricted: `math.hypot` never raises (since fixes/C17_far_overflow.diff; `Point.norm` did).
   What is NOT proved here (no IEEE model): the `1e-5 · r²` accuracy in binary64 — decided by search in
   harness/props/c17.py against 60-digit arithmetic.
 -/
@@ -26,7 +32,6 @@ set_option linter.unusedSectionVars false
 theorem dist_real (x1 y1 x2 y2 : ℝ) :
     Disc.dist realFns x1 y1 x2 y2 = .ok (√((x1 - x2) ^ 2 + (y1 - y2) ^ 2)) := by
   unfold Disc.dist; simp only [realFns]
-  rw [if_pos (by positivity)]; congr 2
 
 /-- the case split is correct: between the two tangencies no divisor vanishes and both quotients handed to
     `acos` — computed from the lengths relative to `s = max r1 r2` — are the cosines of the triangle with sides
@@ -131,19 +136,17 @@ theorem pyMax_pos (r1 r2 : α) (h1 : (zero : α) < r1) (h2 : (zero : α) < r2) :
 theorem pyDiv_ok (a b : α) (hb : ¬ isZero b) : pyDiv a b = .ok (a / b) := by
   unfold pyDiv; exact if_neg hb
 
-/-- **structural totality of the repaired code**: if `acos` succeeds on `[-1, 1]` and the root succeeds on a
-    sum of two squares, the function returns a value for all centres and positive radii — for arbitrary
-    arithmetic on a linearly ordered carrier, in particular for every rounding, underflow and overflow
-    behaviour: every divisor is either `max r1 r2 > 0` or has been tested against zero, and `acos` only
-    sees clamped values. -/
+/-- **structural totality of the repaired code**: if `acos` succeeds on `[-1, 1]`, the function returns a
+    value for all centres and positive radii — for arbitrary arithmetic on a linearly ordered carrier and an
+    arbitrary (total) `hypot`, in particular for every rounding, underflow and overflow behaviour: every
+    divisor is either `max r1 r2 > 0` or has been tested against zero, and `acos` only sees clamped values. -/
 theorem total_structural (F : Fns α) (h11 : (negOne : α) ≤ one)
     (hacos : ∀ x, (negOne : α) ≤ x → x ≤ one → ∃ v, F.acos x = .ok v)
-    (hroot : ∀ x y, ∃ v, F.root (F.sq x + F.sq y) = .ok v)
     (x1 y1 r1 x2 y2 r2 : α) (h1 : (zero : α) < r1) (h2 : (zero : α) < r2) :
     ∃ a, area F x1 y1 r1 x2 y2 r2 = .ok a := by
   unfold area Disc.dist
-  obtain ⟨d, hd⟩ := hroot (x1 + -x2) (y1 + -y2)
-  rw [hd]; simp only [bind, Except.bind]
+  simp only [bind, Except.bind]
+  generalize F.hypot (x1 - x2) (y1 - y2) = d
   unfold areaD
   by_cases c1 : r1 + r2 < d
   · rw [if_pos c1]; exact ⟨_, rfl⟩
@@ -159,12 +162,12 @@ theorem total_structural (F : Fns α) (h11 : (negOne : α) ≤ one)
   push Not at c3
   unfold quot
   rw [pyDiv_ok _ _ c3.1]; simp only
-  obtain ⟨al, ha⟩ := hacos _ (clamp_in_range ((F.sq (r1 / pyMax r1 r2) + F.sq (d / pyMax r1 r2) - F.sq (r2 / pyMax r1 r2)) /
-    (two * (r1 / pyMax r1 r2) * (d / pyMax r1 r2))) h11).1 (clamp_in_range _ h11).2
+  obtain ⟨al, ha⟩ := hacos _ (clamp_in_range (((r1 / pyMax r1 r2 - r2 / pyMax r1 r2) * (r1 / pyMax r1 r2 + r2 / pyMax r1 r2) +
+    F.sq (d / pyMax r1 r2)) / (two * (r1 / pyMax r1 r2) * (d / pyMax r1 r2))) h11).1 (clamp_in_range _ h11).2
   rw [ha]; simp only
   rw [pyDiv_ok _ _ c3.2]; simp only
-  obtain ⟨be, hb⟩ := hacos _ (clamp_in_range ((F.sq (r2 / pyMax r1 r2) + F.sq (d / pyMax r1 r2) - F.sq (r1 / pyMax r1 r2)) /
-    (two * (r2 / pyMax r1 r2) * (d / pyMax r1 r2))) h11).1 (clamp_in_range _ h11).2
+  obtain ⟨be, hb⟩ := hacos _ (clamp_in_range (((r2 / pyMax r1 r2 - r1 / pyMax r1 r2) * (r2 / pyMax r1 r2 + r1 / pyMax r1 r2) +
+    F.sq (d / pyMax r1 r2)) / (two * (r2 / pyMax r1 r2) * (d / pyMax r1 r2))) h11).1 (clamp_in_range _ h11).2
   rw [hb]; exact ⟨_, rfl⟩
 
 /-- the values `areaD` can return: `0`, `small`, or a value clamped into `[0, small]`. -/
@@ -236,5 +239,25 @@ example : areaD realFns 2 1 (1/2) = .ok (π * 1 ^ 2) := by
 
 example : areaD realFns 1 1 1 = .ok (lensStd 1 1 1) :=
   lens_formula 1 1 1 (by norm_num) (by norm_num) (by norm_num) (by norm_num)
+
+/-- `lensStd` is literally the textbook closed form. -/
+example (r1 r2 d : ℝ) : lensStd r1 r2 d =
+    r1 ^ 2 * arccos ((r1 ^ 2 + d ^ 2 - r2 ^ 2) / (2 * r1 * d)) + r2 ^ 2 * arccos ((r2 ^ 2 + d ^ 2 - r1 ^ 2) / (2 * r2 * d))
+     - √((-d + r1 + r2) * (d + r1 - r2) * (d - r1 + r2) * (d + r1 + r2)) / 2 := rfl
+
+/-- `total_structural` applied to the real library functions (`realFns_acos_total` discharges its hypothesis) on a
+    genuine lens (radii 2 and 1, centres 2 apart) … -/
+example : ∃ a, area realFns 0 0 2 2 0 1 = .ok a :=
+  total_structural realFns (by simp) realFns_acos_total 0 0 2 2 0 1 (by simp [zero]) (by simp [zero])
+
+/-- … and `bounds_structural` to the same pair. -/
+example (a : ℝ) (h : area realFns 0 0 2 2 0 1 = .ok a) : (zero : ℝ) ≤ a ∧ a ≤ small realFns 2 1 :=
+  bounds_structural realFns 0 0 2 2 0 1 a (by rw [small_eq]; simp only [zero_eq]; positivity) h
+
+/-- the structural theorems need nothing of the library: with `x ** 2`, `hypot`, `sin` and `π` all constant 0
+    the function still returns a value. -/
+example : ∃ a, area (⟨fun _ => 0, fun _ _ => 0, realFns.acos, fun _ => 0, 0⟩ : Fns ℝ) 5 5 3 (-7) 1 4 = .ok a :=
+  total_structural (⟨fun _ => 0, fun _ _ => 0, realFns.acos, fun _ => 0, 0⟩ : Fns ℝ) (by simp) realFns_acos_total
+    5 5 3 (-7) 1 4 (by simp [zero]) (by simp [zero])
 
 end FV.C17
